@@ -22,6 +22,7 @@ FObs(ff) == [contains |-> [i \in 1..9 |-> FContains(ff, Offs[i])],
              current  |-> FCurrent(ff)]
 
 HAfter(e) == CASE e.op = "add"     -> HAdd(h, nxt)
+               [] e.op = "readd"   -> HAdd(h, IF HIsEmpty(h) THEN 0 ELSE HCurrent(h))     \* the element shown, added once more
                [] e.op = "back"    -> HBack(h)
                [] e.op = "forward" -> HForward(h)
 FAfter(e) == CASE e.op = "create"     -> FCreate(nxt)
